@@ -88,4 +88,28 @@ CHECKS = {
   'note': 'Trusted: Coq kernel + vm_compute; dot_writer text layout and the file system are modelled/observed; Python translation of files to Coq terms; hooks. Non-UTF-8 target paths are out of scope (to_str().unwrap()); read-only directories cannot be exercised as root.',
   'technique': 'Rocq proof (printer/extractor round trip) + extraction of the real files inside Coq + fault enumeration',
  },
+ 'C01': {
+  'text': 'Coq theorem C01_longest_match_first_pattern: for every mode automaton without lookaheads that accepts exactly its pattern languages (lang_equiv, which C01_lang_equiv_from_certificate derives from the kernel-checked C02 certificate of that very automaton), and every haystack: find_from returns None iff no pattern matches a non-empty prefix, otherwise the token ends after the LONGEST prefix some pattern matches in full and its type is that of the FIRST listed pattern matching that prefix; C01_stream_is_iterated_rule: the token stream from any reachable state is the iteration of that rule with one character skipped where nothing matches, spans absolute. Tie to the code: differential correspondence (implementation vs model on dumped automata vs declarative specification on the parsed ASTs) over generated pattern sets incl. all priority orders, plus C02 certificates for a subset of the explored configurations discharging lang_equiv.',
+  'design_ref': 'DESIGN.md section 7, C01',
+  'note': 'Trusted: Coq kernel + vm_compute; Python translators and differ; harness and read-only hooks; class/leaf predicates observed (exhaustive sweep for the certificates, per case for the differential); regex_syntax parser outside the model. Excluded by visible hypothesis and recorded as known findings: duplicate token types inside a mode (D8), token types >= 2^32 (D9).',
+  'technique': 'Rocq proof (selection theorem + refinement to the declarative rule) + per-automaton certificates + differential correspondence',
+ },
+ 'C04': {
+  'text': 'Coq theorems for every mode automaton with lookahead automata accepting exactly their patterns (per-automaton C02 certificates): a reported token is a full match of a pattern of its type (never including lookahead text) whose lookahead condition (positive: some non-empty prefix of the rest matches; negative: none; at end of input positive fails, negative holds) is satisfied; conversely a token is reported whenever some pattern matches with satisfied lookahead; after the token the cursor is its end so the lookahead text is scanned again; all of it in every reachable iterator state, i.e. for every start offset incl. after set_offset/with_offset. Tie: differential correspondence with all boundary start offsets, certificates for main and lookahead automata of a subset of the explored configurations.',
+  'design_ref': 'DESIGN.md section 7, C04',
+  'note': 'Trusted: Coq kernel + vm_compute; Python translators and differ; harness and read-only hooks; class/leaf predicates observed (exhaustive sweep for the certificates, per case for the differential); regex_syntax parser outside the model. Excluded by visible hypothesis and recorded as known findings: duplicate token types inside a mode (D8), token types >= 2^32 (D9).',
+  'technique': 'Rocq proof (gating and completeness from the selection theorem) + per-automaton certificates + differential correspondence',
+ },
+ 'C13': {
+  'text': 'Coq theorem C13_transparent: for every history of builds through the cache model (association list keyed by the WHOLE configuration with proved-correct structural equality) the results equal the uncached compile of each configuration and a failing build leaves the cache unchanged; near-identical configurations (one field changed, every field kind) are distinct keys. The premises read from the source (PartialEq/Eq/Hash derived on ScannerMode/Pattern/Lookahead with exactly the modelled fields) are regenerated into Coq obligations on every run. Tie: histories of 5-40 builds per process mixing equal, near-identical, unrelated and failing configurations; cached vs uncached compared on outcome, canonical dump and token streams, and with the model run on the same history. That compilation is a function of the configuration is observed, not proved.',
+  'design_ref': 'DESIGN.md section 7, C13',
+  'note': 'Trusted: Coq kernel; the source translator (regexes over scanner_cache.rs, scanner_builder.rs, pattern.rs, scanner_mode.rs); harness; determinism of compilation observed.',
+  'technique': 'Rocq proof (cache invariant by induction over build histories) + source-fact obligations + differential on build histories',
+ },
+ 'C14': {
+  'text': 'PARTIAL, stated. Proved: C14_any_schedule — every interleaving of atomic build steps of N threads gives each thread the results of its own builds run sequentially (corollary of C13). The atomicity premise (build takes the exclusive lock across lookup+insert) and Send+Sync are checked from the source / by a compile-time assertion on every run. OBSERVED, not proved: data races on the unsafe Arc::as_ptr deref, lock poisoning, deadlock — a stress run of 2-16 threads (builds: hits, misses, failing; scans on shared and private scanners) under a watchdog, each thread compared with a sequential reference run.',
+  'design_ref': 'DESIGN.md section 7, C14',
+  'note': 'Trusted: as C13; the thread schedules actually exercised are those the OS produces; no memory-model reasoning.',
+  'technique': 'Rocq proof of the locking protocol + source-fact obligations + multi-threaded stress run (observed)',
+ },
 }
